@@ -98,6 +98,10 @@ func (p Precompile) Run(evm *vm.EVM, contract *vm.Contract, readOnly bool) (bz [
 		return nil, err
 	}
 
+	// Run the method on a branch of the state that is only written back once it has completed:
+	// an error or an out-of-gas panic half way through an SDK message must not leave a torn message behind.
+	ctx, writeCache := ctx.CacheContext()
+
 	switch method.Name {
 	// TODO Approval transactions => need cosmos-sdk v0.46 & ibc-go v6.2.0
 	// Authorization Methods:
@@ -134,6 +138,8 @@ func (p Precompile) Run(evm *vm.EVM, contract *vm.Contract, readOnly bool) (bz [
 	if !contract.UseGas(cost) {
 		return nil, vm.ErrOutOfGas
 	}
+
+	writeCache()
 
 	return bz, nil
 }
